@@ -721,7 +721,16 @@ def interp_2d(chk, drv):
             per1 = per2 = per_
         dk = rng.choice(['normal', 'normal', 'scaled', 'big'])
         U = gen_data(rng, s1.nb * s2.nb, dk).reshape(s1.nb, s2.nb)
-        case = {'space1': s1.desc(), 'space2': s2.desc(), 'data': dk, 'u': U.tolist()}
+        # how the caller stores the data is not part of the problem: row-major, column-major (x1 the fast index: the transpose of an
+        # (x2, x1) table) or a strided window of a larger table
+        mem = ('C', 'F', 'strided')[it // 4 % 3]
+        if mem == 'F':
+            U = np.asfortranarray(U)
+        elif mem == 'strided':
+            big = np.full((2 * s1.nb + 1, 3 * s2.nb), np.nan)
+            big[1::2, ::3] = U
+            U = big[1::2, ::3]
+        case = {'space1': s1.desc(), 'space2': s2.desc(), 'data': dk, 'u': U.tolist(), 'memory_layout_of_the_data': mem}
         try:
             itp = SplineInterpolator2D(s1.basis, s2.basis)
             spl = Spline2D(s1.basis, s2.basis)
@@ -740,6 +749,16 @@ def interp_2d(chk, drv):
         if not all_finite(W, ev, x1, x2):
             chk.fail('C08:non-finite', '2-D interpolation produced non-finite coefficients / values', case)
             continue
+        # the table entry point writes into the array it is given, also when that array is a window of a larger one
+        try:
+            tab = np.full((2 * s1.nb, 2 * s2.nb + 1), np.nan)
+            win = tab[::2, 1::2]
+            spl.eval_vector(x1.copy(), x2.copy(), win)
+            if not np.array_equal(win, tab[::2, 1::2]) or not np.allclose(tab[::2, 1::2], ev, rtol=1e-12, atol=1e-12 * max(1.0, float(np.abs(ev).max()))):
+                chk.fail('C08:eval-vector-strided-output', 'Spline2D.eval_vector into a strided window of a larger table does not leave the values of the '
+                         'interpolant at the interpolation points there', case)
+        except Exception as e:  # noqa: BLE001
+            chk.fail('C08:2d-eval-raises', 'Spline2D.eval_vector into a strided output raised %s: %s' % (type(e).__name__, e), case)
         # ---- oracle
         M1 = np.array([[float(v) for v in r] for r in oracle_matrix(s1, frs(x1))])
         M2 = np.array([[float(v) for v in r] for r in oracle_matrix(s2, frs(x2))])
